@@ -61,6 +61,15 @@ def facts(ctx):
     ctx.fact("Unary.Eval: minus is NewInt(0, Type.Bits).Sub(r, val) typed with the operand type",
              bool(re.search(r"r := mpa\.NewInt\(0, expr\.Type\.Bits\)\s*return gen\.Constant\(r\.Sub\(r, val\), expr\.Type\)",
                             body)), True)
+    body = vlib.strip_go_comments(vlib.go_func_body("compiler/mpa/mpint.go", r"\(z \*Int\) Add\(") or "")
+    ctx.fact("mpa.Int.Add small path: setSmall(x+y) at the receiver's width (no `z.bits = ...`)",
+             [bool(re.search(r"if z\.isSmall\(\) \{\s*z\.setSmall\(x\.small\(\) \+ y\.small\(\)\)\s*return z\s*\}", body)),
+              "z.bits =" in body], [True, False])
+    body = vlib.strip_go_comments(vlib.go_func_body("compiler/mpa/mpint.go", r"\(z \*Int\) bin\(") or "")
+    ctx.fact("mpa.Int.bin: both operands and the result have max(x.bits, y.bits, z.bits) wires",
+             [bool(re.search(r"size := max\(max\(x\.bits, y\.bits\), z\.bits\)", body)),
+              re.findall(r'newIOArg\("(\w)", types\.TInt, (\w+)\)', body)],
+             [True, [["x", "size"], ["y", "size"], ["z", "size"]]])
     body = vlib.strip_go_comments(vlib.go_func_body("compiler/ssa/generator.go", r"\(gen \*Generator\) Constant\(") or "")
     part = body[body.find("case *mpa.Int:"):body.find("case bool:")]
     ctx.fact("Generator.Constant(*mpa.Int): 32/64/n sizing, type widened, SetTypeSize(bits)",
